@@ -49,6 +49,13 @@ def reset_concurrency_limiter(token: Any) -> None:
     _concurrency_limiter.reset(token)
 
 
+def _is_resuming_interrupt(node: HyperNode, state: GraphState) -> bool:
+    """True when an InterruptNode will take its resume path (same condition as AsyncInterruptNodeExecutor)."""
+    if not getattr(node, "is_interrupt", False):
+        return False
+    return all(o in state.values for o in node.data_outputs) and node.name not in state.node_executions
+
+
 async def run_superstep_async(
     graph: Graph,
     state: GraphState,
@@ -101,9 +108,12 @@ async def run_superstep_async(
         input_versions = {param: state.get_version(param) for param in node.inputs}
         wait_for_versions = {name: state.get_version(name) for name in node.wait_for}
 
-        # Check cache before execution
+        # Check cache before execution. An InterruptNode that is being resumed
+        # (its response was supplied by the caller) bypasses the cache: the
+        # supplied response wins over a stored one, and it is not stored as if
+        # the handler had produced it.
         cache_key, cached_outputs = ("", None)
-        if cache is not None:
+        if cache is not None and not _is_resuming_interrupt(node, state):
             cache_key, cached_outputs = check_cache(node, inputs, cache)
 
         if cached_outputs is not None:
